@@ -27,6 +27,10 @@ def root_of(e):
     return e
 
 
+def _proj_key(p):
+    return tuple(("f", x["f"]) if isinstance(x, dict) and "f" in x else repr(x) for x in p)
+
+
 def is_vec_path(p):
     return "alloc::vec::Vec" in p
 
@@ -35,6 +39,7 @@ class StatePathBuilder(PathExprBuilder):
     def __init__(self, body, facts, path, inline=True):
         PathExprBuilder.__init__(self, body, facts, path, inline=inline)
         self.writes = []            # (pos, si, raw place tree, rvalue json, bb)
+        self.local_writes = []      # (pos, si, (local, projection key), rvalue json, bb)
         self.mutations = []         # (pos, name, root, args json, bb)
         self._scan = True
         for pos_, bb in enumerate(self.path):
@@ -43,6 +48,13 @@ class StatePathBuilder(PathExprBuilder):
                 if s["k"] == "assign" and s["pl"]["p"] and isinstance(s["pl"]["p"][-1], dict) and "f" in s["pl"]["p"][-1] and "*" in s["pl"]["p"]:
                     raw = canon(PathExprBuilder.place(self, s["pl"], (bb, si)))
                     self.writes.append((pos_, si, raw, s["rv"], bb))
+                elif s["k"] == "assign" and s["pl"]["p"] and isinstance(s["pl"]["p"][-1], dict) and "f" in s["pl"]["p"][-1]:
+                    # a field of a local (`ret.len = at` with `ret` a local handle): identified by (local, projection); when the local's value
+                    # is itself place-like (a clone, a parameter) also by the tree a read through a reference would produce
+                    raw = canon(PathExprBuilder.place(self, s["pl"], (bb, si)))
+                    self.local_writes.append((pos_, si, (s["pl"]["l"], _proj_key(s["pl"]["p"])), s["rv"], bb))
+                    if isinstance(raw, tuple) and raw and raw[0] == "field":
+                        self.writes.append((pos_, si, raw, s["rv"], bb))
             t = blk["term"]
             if t["k"] == "call" and t["args"]:
                 fn = callee(t)
@@ -82,6 +94,12 @@ class StatePathBuilder(PathExprBuilder):
         if here is None:
             return raw
         best = None
+        if "*" not in pl["p"] and self.local_writes:
+            lk = (pl["l"], _proj_key(pl["p"]))
+            for (pos_, si, k_, rv, bb) in self.local_writes:
+                if k_ == lk and (pos_ < here or (pos_ == here and si < loc[1])):
+                    if best is None or (pos_, si) > (best[0], best[1]):
+                        best = (pos_, si, k_, rv, bb)
         for (pos_, si, tree, rv, bb) in self.writes:
             if tree == key and (pos_ < here or (pos_ == here and si < loc[1])):
                 if best is None or (pos_, si) > (best[0], best[1]):
@@ -165,6 +183,9 @@ class StatePathBuilder(PathExprBuilder):
                     p_, l_, c_, o_ = r[2]
                     out.append(("eq", P("len", 0), ("bin", "Add", l_, o_)))
                     out.append(("eq", P("capacity", 0), ("bin", "Add", c_, o_)))
+                elif nm0 == "from_raw_parts" and "Vec" in r[1] and len(r[2]) == 3:
+                    out.append(("eq", P("len", 0), r[2][1]))
+                    out.append(("eq", P("capacity", 0), r[2][2]))
                 elif nm0 == "with_capacity" and len(r[2]) == 1:
                     out.append(("le", r[2][0], P("capacity", 0)))
                     out.append(("eq", P("len", 0), ("const", 0)))
